@@ -30,6 +30,7 @@ import (
 	"github.com/dapr/kit/logger"
 
 	"verif/enumx"
+	"verif/mc"
 	"verif/ref/crashfs/ctl"
 	"verif/ref/crashfs/rawfs"
 )
@@ -59,6 +60,22 @@ type Scenario struct {
 	Rec   []int  `json:"rec,omitempty"`
 	C2    *Crash `json:"crash2,omitempty"`
 	Third []int  `json:"third,omitempty"`
+	// Desc: every Write of the scenario creates its files in descending name
+	// order (mc.ReverseMapOrder) instead of ascending.
+	Desc bool `json:"desc,omitempty"`
+}
+
+// hasTwo reports whether some Write of the scenario has a two-file set, i.e.
+// whether the creation order can make a difference at all.
+func (sc Scenario) hasTwo() bool {
+	for _, l := range [][]int{sc.Hist, sc.Rec, sc.Third} {
+		for _, s := range l {
+			if len(fileSets[s]) > 1 {
+				return true
+			}
+		}
+	}
+	return false
 }
 
 func (sc Scenario) String() string { b, _ := json.Marshal(sc); return string(b) }
@@ -428,6 +445,9 @@ func (w *worker) exec(sc Scenario) (res result) {
 	if stopping.Load() {
 		select {} // the process is being interrupted
 	}
+	if mc.ReverseMapOrder != sc.Desc {
+		panic("c18: mc.ReverseMapOrder does not match the scenario's order")
+	}
 	base := filepath.Join(w.root, "base")
 	target := filepath.Join(base, "tgt")
 	defer rawfs.RemoveTree(base)
@@ -481,7 +501,13 @@ func (w *worker) exec(sc Scenario) (res result) {
 			call = wi + 1
 			files, want := mkfiles(seq, si)
 			m.writes = append(m.writes, want)
-			m.note(fmt.Sprintf("Write(%s):", strings.Join(fileSets[si], ",")))
+			names := fileSets[si]
+			if sc.Desc && len(names) > 1 {
+				// shown (and fingerprinted) in creation order: the order is part
+				// of the case exactly when a Write with two files is executed
+				names = []string{names[1], names[0]}
+			}
+			m.note(fmt.Sprintf("Write(%s):", strings.Join(names, ",")))
 			w.c.Begin()
 			if p.crash != nil && wi == p.at {
 				w.c.Arm(p.crash.Step, p.crash.After)
@@ -653,6 +679,8 @@ func run(r *enumx.Run, replay *enumx.ReplayCase) {
 			panic(err)
 		}
 		w := get()
+		mc.ReverseMapOrder = sc.Desc
+		defer func() { mc.ReverseMapOrder = false }()
 		res := w.exec(sc)
 		fmt.Printf("replay %s\n  steps: %s\n", sc, strings.Join(res.trace, " "))
 		if res.key != "" {
@@ -670,15 +698,16 @@ func run(r *enumx.Run, replay *enumx.ReplayCase) {
 		"(thorough: before and after every step, 2n points; quick: once per distinct gap between two steps, n+1 points: before step 0 and after every step — "+
 		"'before step k>0' is the same instant as 'after step k-1'); "+
 		"then a fresh Dir writing every set, followed by nothing or every second set, or crashing in every distinct gap of that Write (n+1 points, both tiers) followed by a third fresh Dir writing every set), "+
+		"the whole space once with every Write creating its files in ascending name order and once in descending order (scenarios without a two-file set only once), "+
 		"executed on the real filesystem through the real dir.go with os/time substituted; the property is evaluated after every single step, after every crash and after every Write that returns. "+
 		"Step counts are measured from a completed run, so every placed crash fires. "+
 		"distinct_nontrivial is measured: a case is trivial if its first crash fires before any filesystem step was performed; two cases are the same if they have the same fingerprint "+
-		"(64-bit FNV-1a over every step executed, every observation of the target with full contents, where each crash fired, and the final shape of the base directory; "+
+		"(64-bit FNV-1a over every step executed, every observation of the target with full contents, where each crash fired, the creation order of every executed two-file Write, and the final shape of the base directory; "+
 		"whether a crash was placed 'before step k' or 'after step k-1' is not part of it, so the thorough tier's literal before/after pairs collapse).", maxLen))
 	r.Assume("crash = process death between two filesystem calls (kernel state survives, memory does not); power loss / missing fsync is not modelled and not claimed by the property")
 	r.Assume("ctime.Now is strictly increasing: two Writes never derive the same version directory name (the real clock may repeat or step back; outside the property)")
-	r.Assume("the order in which one Write creates the files of a two-file set is Go's map iteration order and is not controlled: the oracle does not depend on it, step labels number the files by call order, " +
-		"but for each crash point only one of the two orders is exercised per run")
+	r.Assume("the range over the files map in Write is canonicalised by mcgen -mapsort (mc.SortedKeys) and run in both name orders; the order is uniform within a scenario " +
+		"(all Writes ascending or all descending): scenarios mixing the two orders across different Writes are not enumerated")
 	r.Assume("a fresh Dir has no memory of the dead one (dir.New reads nothing); os.RemoveAll of a directory is modelled as one unlink per entry in name order, then rmdir")
 
 	tl := &tally{byKey: map[string]int64{}}
@@ -732,8 +761,6 @@ func run(r *enumx.Run, replay *enumx.ReplayCase) {
 		}
 	}
 
-	// pass 1: crash-free histories (also measures the step count of each
-	// history's last Write).
 	var hists [][]int
 	var gen func(prefix []int, n int)
 	gen = func(prefix []int, n int) {
@@ -748,83 +775,122 @@ func run(r *enumx.Run, replay *enumx.ReplayCase) {
 	for n := 1; n <= maxLen; n++ {
 		gen(nil, n)
 	}
-	nlast := make([]int, len(hists))
-	slots1 := make([]slot, len(hists))
-	done := r.Parallel(len(hists), func(i int) {
-		w := get()
-		defer put(w)
-		sc := Scenario{Hist: hists[i]}
-		res := w.exec(sc)
-		note(res, sc, &slots1[i])
-		if n := len(res.steps[0]); n == len(hists[i]) {
-			nlast[i] = res.steps[0][n-1]
-		}
-	})
-	report(slots1)
-	aborted := 0
-	for i := range hists {
-		if nlast[i] == 0 {
-			aborted++
-		}
-	}
-	if done == len(hists) && aborted > 0 {
-		r.Incomplete(fmt.Sprintf("%d of %d crash-free histories already violate the property; the crash points inside them are not enumerated", aborted, len(hists)))
-	}
-	if done < len(hists) {
-		r.Incomplete(fmt.Sprintf("crash-free histories: %d of %d run; no crash case run", done, len(hists)))
-		finish(r, tl)
-		return
-	}
-	r.Space(fmt.Sprintf("all %d crash-free histories of 1..%d Writes over 4 file sets, observed after every step; leftover clause checked after every Write", len(hists), maxLen))
+	nlast := make([]int, len(hists)) // steps of each history's last Write (the same under both orders; measured under each)
+	totalItems := 0
+	defer func() { mc.ReverseMapOrder = false }()
 
-	// pass 2: one item per (history, crash point in its last Write).
-	type item struct {
-		h  int
-		c1 Crash
-	}
-	var items []item
-	for h := range hists {
-		for _, c1 := range points(nlast[h], r.Thorough()) {
-			items = append(items, item{h, c1})
+	// The whole space is enumerated twice, sequentially: every Write creating
+	// its files in ascending name order, then in descending order
+	// (mc.ReverseMapOrder is process-wide, so it is switched between the passes,
+	// never while workers run). The descending pass only runs scenarios that
+	// contain a two-file set — the others are literally the same execution —
+	// except the uninterrupted recovery run that measures the step count.
+	for _, desc := range []bool{false, true} {
+		mc.ReverseMapOrder = desc
+		order := "ascending"
+		if desc {
+			order = "descending"
 		}
-	}
-	slots2 := make([]slot, len(items))
-	nested := "the n+1 distinct gaps of its n steps (before step 0, after each step)"
-	done = r.Parallel(len(items), func(i int) {
-		w := get()
-		defer put(w)
-		it := items[i]
-		s := &slots2[i]
-		for r1 := range fileSets {
-			// A: the recovering Dir is not interrupted; one or two Writes
-			sc := Scenario{Hist: hists[it.h], C1: &it.c1, Rec: []int{r1}}
-			resA := w.exec(sc)
-			note(resA, sc, s)
-			for r2 := range fileSets {
-				sc := Scenario{Hist: hists[it.h], C1: &it.c1, Rec: []int{r1, r2}}
-				note(w.exec(sc), sc, s)
+
+		// pass 1: crash-free histories (also measures the step count of each
+		// history's last Write).
+		var sel []int
+		for i, h := range hists {
+			if !desc || (Scenario{Hist: h}).hasTwo() {
+				sel = append(sel, i)
 			}
-			// B: the recovering Dir dies in its first Write; a third Dir writes
-			n := 0
-			if len(resA.steps[1]) > 0 {
-				n = resA.steps[1][0]
+		}
+		slots1 := make([]slot, len(sel))
+		done := r.Parallel(len(sel), func(k int) {
+			w := get()
+			defer put(w)
+			i := sel[k]
+			sc := Scenario{Hist: hists[i], Desc: desc}
+			res := w.exec(sc)
+			note(res, sc, &slots1[k])
+			nlast[i] = 0
+			if n := len(res.steps[0]); n == len(hists[i]) {
+				nlast[i] = res.steps[0][n-1]
 			}
-			for _, c2 := range points(n, false) {
-				c2 := c2
-				for t := range fileSets {
-					sc := Scenario{Hist: hists[it.h], C1: &it.c1, Rec: []int{r1}, C2: &c2, Third: []int{t}}
+		})
+		report(slots1)
+		if done < len(sel) {
+			r.Incomplete(fmt.Sprintf("%s order: crash-free histories: %d of %d run; no crash case run", order, done, len(sel)))
+			break
+		}
+		aborted := 0
+		for i := range hists {
+			if nlast[i] == 0 {
+				aborted++
+			}
+		}
+		if aborted > 0 {
+			r.Incomplete(fmt.Sprintf("%s order: %d of %d crash-free histories already violate the property; the crash points inside them are not enumerated", order, aborted, len(hists)))
+		}
+		r.Space(fmt.Sprintf("%s order: %d crash-free histories of 1..%d Writes over 4 file sets (all %d; in descending order those containing a two-file set), observed after every step; leftover clause checked after every Write", order, len(sel), maxLen, len(hists)))
+
+		// pass 2: one item per (history, crash point in its last Write).
+		type item struct {
+			h  int
+			c1 Crash
+		}
+		var items []item
+		for h := range hists {
+			for _, c1 := range points(nlast[h], r.Thorough()) {
+				items = append(items, item{h, c1})
+			}
+		}
+		slots2 := make([]slot, len(items))
+		done = r.Parallel(len(items), func(i int) {
+			w := get()
+			defer put(w)
+			it := items[i]
+			s := &slots2[i]
+			for r1 := range fileSets {
+				// A: the recovering Dir is not interrupted; one or two Writes.
+				// Always run: it measures the steps of Write(r1) in this state.
+				sc := Scenario{Hist: hists[it.h], C1: &it.c1, Rec: []int{r1}, Desc: desc}
+				resA := w.exec(sc)
+				note(resA, sc, s)
+				for r2 := range fileSets {
+					sc := Scenario{Hist: hists[it.h], C1: &it.c1, Rec: []int{r1, r2}, Desc: desc}
+					if desc && !sc.hasTwo() {
+						continue
+					}
 					note(w.exec(sc), sc, s)
 				}
+				// B: the recovering Dir dies in its first Write; a third Dir writes
+				n := 0
+				if len(resA.steps[1]) > 0 {
+					n = resA.steps[1][0]
+				}
+				for _, c2 := range points(n, false) {
+					c2 := c2
+					for t := range fileSets {
+						sc := Scenario{Hist: hists[it.h], C1: &it.c1, Rec: []int{r1}, C2: &c2, Third: []int{t}, Desc: desc}
+						if desc && !sc.hasTwo() {
+							continue
+						}
+						note(w.exec(sc), sc, s)
+					}
+				}
 			}
+		})
+		report(slots2)
+		totalItems += done
+		if done < len(items) {
+			r.Incomplete(fmt.Sprintf("%s order: crash cases: %d of %d (history, first crash point) items completed within the budget (items are ordered by history length)%s", order, done, len(items),
+				map[bool]string{false: "; descending order not run", true: ""}[desc]))
+			break
 		}
-	})
-	report(slots2)
-	if done < len(items) {
-		r.Incomplete(fmt.Sprintf("crash cases: %d of %d (history, first crash point) items completed within the budget (items are ordered by history length)", done, len(items)))
-	} else {
-		r.Space(fmt.Sprintf("all %d (history, first crash point) items, each with 4 recovering first Writes x (no second crash: 1 + 4 continuations; second crash at each of %s x 4 third-process Writes)", len(items), nested))
+		r.Space(fmt.Sprintf("%s order: all %d (history, first crash point) items, each with 4 recovering first Writes x (no second crash: 1 + 4 continuations; second crash in each of the n+1 distinct gaps of its n steps x 4 third-process Writes)%s",
+			order, len(items), map[bool]string{false: "", true: "; scenarios without a two-file set skipped (identical to the ascending pass) except the step-measuring recovery run"}[desc]))
+		if !desc {
+			r.Set("first_crash_points", len(items))
+		}
 	}
-	r.Set("first_crash_points", len(items))
+	r.Set("first_crash_point_items_run_both_orders", totalItems)
+	mc.ReverseMapOrder = false
 
 	// deterministic samples: three fixed scenarios, re-run sequentially (not counted)
 	w := get()
@@ -832,7 +898,9 @@ func run(r *enumx.Run, replay *enumx.ReplayCase) {
 		{Hist: []int{2}},
 		{Hist: []int{1, 3}, C1: &Crash{8, true}, Rec: []int{2, 0}},
 		{Hist: []int{2, 1}, C1: &Crash{3, false}, Rec: []int{3}, C2: &Crash{6, true}, Third: []int{1}},
+		{Hist: []int{3, 2}, C1: &Crash{4, true}, Rec: []int{2}, Desc: true},
 	} {
+		mc.ReverseMapOrder = sc.Desc
 		res := w.exec(sc)
 		verdict := "holds"
 		if res.key != "" {
@@ -840,6 +908,7 @@ func run(r *enumx.Run, replay *enumx.ReplayCase) {
 		}
 		r.Sample(map[string]any{"scenario": sc, "steps": strings.Join(res.trace, " "), "observations": res.nobs, "verdict": verdict})
 	}
+	mc.ReverseMapOrder = false
 	put(w)
 	finish(r, tl)
 }
